@@ -405,10 +405,16 @@ class FineGrainedBuildManager:
         # builtins and friends could potentially get triggered because
         # of protocol stuff, but nothing good could possibly come from
         # actually updating them.
+        # A stdlib module that is not in the graph is a newly imported one that was dropped again
+        # while another new module was processed first (see update_module_isolated): it must be
+        # processed, or modules that import it are left with a dependency that is not in the graph.
         if (
             is_stdlib_file(self.manager.options.abs_custom_typeshed_dir, path)
             or module in SENSITIVE_INTERNAL_MODULES
-        ):
+        ) and module in self.graph:
+            # Like every processed module, start from a clean error state: the messages of earlier
+            # updates have been flushed, and targets with errors are reprocessed by the caller.
+            self.manager.errors.reset()
             return [], (module, path), None
 
         manager = self.manager
